@@ -50,7 +50,7 @@ func run(r *ev.Run) {
 	r.Assume("restart = fail-stop of the incarnation's source, destination and queue wrappers (inject.Freeze), then a new sync handler over the same durable stores and queue KV with fresh wrappers; goroutines of the old incarnation keep running but every lower-layer call they make fails without effect")
 	r.Assume("progress is driven by logical events only: client retries, one filler upload, and a bounded number (3 + planned fault occurrences) of IdleWait returns; IdleWait's 5 s loop interval is waited for, never judged; a 90 s watchdog on IdleWait only yields inconclusive")
 	r.Assume("bounded progress of the copy loop: while a blob is durably queued, absent from the destination, and the destination answers a stat, the loop must not be in a closed wait cycle = at 3 successive polls the handler has issued the same lower-layer calls (none open) and a goroutine dump shows its loop goroutine parked in a plain channel operation (or the Wait of runSync's local WaitGroup) inside runSync and every live goroutine that goroutine ever created parked in a plain channel operation with a frame of perkeep's packages server or blobserver on top, or in the hand-over select of one of the three enumerator functions, whose cases are the send on runSync's channel and runSync's interrupt channel (then 5 polls, spanning more than the loop's 5 s timer); runSync's channels are local, so nobody else can complete these operations; anything else that delays IdleWait is inconclusive")
-	r.Assume("start-up recovery (validateOnStart, fullSyncOnStart): blobs that are in the source when the handler starts, without a queue row, are expected at the destination too (the status page documents the validation as ensuring 'that the destination has everything the source does, or is at least enqueued to sync'); validation is waited for through the handler's status page (shards processed = total); hourlyCompareBytes is not exercised; blobs that are in the source without a queue row are never subjected to copy failures (the statement covers received blobs)")
+	r.Assume("start-up recovery (validateOnStart, fullSyncOnStart): blobs that are in the source when the handler starts, without a queue row, are expected at the destination too (the status page documents the validation as ensuring 'that the destination has everything the source does, or is at least enqueued to sync'); validation is waited for through the handler's status page (shards processed = total); a panic of the status page while it is read for that (pacing only) is recovered as net/http would, counted as sync_status_page_panics_recovered and not judged (the statement does not cover the status page); hourlyCompareBytes is not exercised; blobs that are in the source without a queue row are never subjected to copy failures (the statement covers received blobs)")
 	r.Assume("family 'full-sync-restart': every blob of the scenario was acknowledged and durably queued before the crash; the incarnation that runs fullSyncOnStart / blockingFullSyncOnStart gets a finite number of copy failures (the first per*m destination writes or source reads); delivery is owed for every one of them after the bounded progress")
 	r.Assume("family 'routed': uploads go through blobserver.Receive on a storage-replica [source, second memory store] or on a storage-cond {isSchema -> that replica, else -> source}; the source receives every blob either way, so every acknowledged blob is owed to the destination; an upload counts as through the replica when the second store holds the blob")
 	r.Assume("family 'server': handlers built by serverinit.Load(high-level config)+InstallHandlers in a child process and driven through their HTTP handlers (PUT at the discovered blob root = cond -> replica|/bs/); 'nothing left to copy' is read from the status handler (blobsToCopy of every sync handler = 0) after all uploads were acknowledged; delivered = the index prefix stats the blob with its true size; configurations '+backup' add, to the generated low-level configuration, a storage /backup/ and a second sync handler /bs/ -> /backup/ (the shape genconfig emits for a cloud replica): delivered there = /backup/ stats the blob with its true size, for schema blobs (which /bs/ receives as a backend of the /bs-and-index/ replica) and non-schema blobs alike")
@@ -58,7 +58,7 @@ func run(r *ev.Run) {
 	r.Assume("a queue row whose blob is at the destination but which is still present after the bounded progress (the handler logs and ignores a failed queue.Delete) is tolerated in the running incarnation, counted, and must be drained by one fault-free restart")
 	r.Assume("index destination: delivered = have:<ref> is \"<size>|indexed\" and meta:<ref> starts with \"<size>|\"; histories for the index family upload every dependency before its dependents, sequentially")
 
-	r.Assume("family 'attach-race': the handler is constructed (from configuration, or by server.NewSyncHandler) while another goroutine makes the first blob-hub look-up for the same, fresh source object (the source's first upload through blobserver.Receive, a blobserver.WaitForBlob on it, the constructor of a second handler); both parties meet at a spin rendez-vous just before their look-up and one leaves it a seeded number of nanoseconds late; half of the rounds use a source that is a comparable value type with a 1 MiB body (slow to hash as a map key); the schedule is never judged, only the uploads acknowledged after both calls returned are owed (the competing first upload is owed only if the handler enqueued it); whether the two call windows intersected is reported as evidence")
+	r.Assume("family 'attach-race': the handler is constructed (from configuration, or by server.NewSyncHandler) while another goroutine makes the first blob-hub look-up for the same, fresh source object (the source's first upload through blobserver.Receive, a blobserver.WaitForBlob on it, the constructor of a second handler); the constructor races run before everything else, one after the other, on two processors with the collector off; both parties meet at a spin rendez-vous placed at the last harness-visible point before their look-up and one leaves it a seeded number of nanoseconds late; when the parties did not leave as planned (one lost its processor) the race is repeated over a new world, at most 5 times, and only the last one is judged; half of the rounds use a source that is a comparable value type with a 1 MiB body (slow to hash as a map key); the schedule is never judged; only uploads acknowledged after both calls returned are owed to the destination (the competing first upload is owed only if the handler enqueued it); whether the two call windows intersected is reported as evidence")
 
 	all := generate(r.Rand("scenarios"), r.Thorough())
 	// (own PRNG label and id prefix: the earlier scenarios keep their ids and seeds)
@@ -173,6 +173,10 @@ func run(r *ev.Run) {
 			if a.Overlap {
 				r.Count("attach_race_call_windows_overlapped", 1)
 			}
+			if a.OnSchedule {
+				r.Count("attach_race_left_rendezvous_on_schedule", 1)
+			}
+			r.Count("attach_race_constructor_races_run", a.Attempts)
 		}
 		iterHist[fmt.Sprint(o.IdleWaitsMax)]++
 		if o.StaleUnexplained > 0 {
@@ -279,6 +283,10 @@ func run(r *ev.Run) {
 		}
 	}
 	r.Extra("idle_waits_per_final_drive_histogram", iterHist)
+	if n := statusPagePanics.Load(); n > 0 {
+		r.Count("sync_status_page_panics_recovered", int(n))
+		fmt.Printf("INFO the sync handler's status page panicked %d times while it was read for the validation progress (recovered, not judged)\n", n)
+	}
 	r.Extra("attach_race_skew_leaving_rendezvous_histogram", attachSkew)
 
 	wwg.Wait()
